@@ -131,6 +131,14 @@ def construct(B, G, n, h, a):
                 w = entries(B, next(p for nm, p in nets[0].named_parameters() if "weights" in nm))
                 src = entries(B, B.tensor(log[nlog]))
                 G.eq(tag + ".reinit.weight_is_new_draw", w[0] * rt, src[0])
+    # ---- an explicit size of zero is a size, not "use the default": a mixed state without purification units ------------------
+    st0 = G.call("mixed(num_aux=0).constructible", lambda: nn.DensityMatrix(n, h, 0, gpu=False))
+    if st0 is not None:
+        G.fact("mixed(num_aux=0).sizes", st0.num_aux == 0 and st0.num_hidden == h and st0.num_visible == n, "num_aux %r" % (st0.num_aux,))
+        for net in (st0.rbm_am, st0.rbm_ph):
+            G.fact("mixed(num_aux=0).shapes[%s]" % ("am" if net is st0.rbm_am else "ph"),
+                   tuple(net.weights_U.shape) == (0, n) and tuple(net.aux_bias.shape) == (0,) and tuple(net.weights_W.shape) == (h, n),
+                   "weights_U %s aux_bias %s" % (tuple(net.weights_U.shape), tuple(net.aux_bias.shape)))
     # ---- module given -------------------------------------------------------------------------------------------------
     for kind in ("positive", "complex", "mixed"):
         mod = PurificationRBM(n, h, a, gpu=False) if kind == "mixed" else BinaryRBM(n, h, gpu=False)
